@@ -60,8 +60,12 @@ def sanitizer(unit):
     micro = "µ"
     # mugr = "\u00b5"
     mugr = "μ"
-    return unit.replace(" ", "").replace("mu", "u").\
-        replace(micro, "u").replace(mugr, "u")
+    unit = unit.replace(" ", "").replace(micro, "u").replace(mugr, "u")
+    # repeat until no "mu" is left, so that sanitizing a sanitized unit
+    # changes nothing ("mmu" used to give "mu" and then "u")
+    while "mu" in unit:
+        unit = unit.replace("mu", "u")
+    return unit
 
 
 def is_si(unit):
